@@ -87,6 +87,31 @@ def run(ctx):
         if pm_["changed"] != pi["changed"] or pm_["res"] != pi["res"]:
             report("Create differs from the model (%s %s)" % (kind, arg), replay, True)
         dist["permutations"] += kind == "perm"; dist["goroutines"] += kind in ("g", "real-g3"); dist["repetitions"] += kind == "repeat"
+    # ---------------- Create over EXISTING, longer output files (a previous, larger set): same bytes as in a fresh directory ----------------
+    olines, ometa = [], []
+    for ps in sets:
+        ref = refs.get(id(ps))
+        if not ref:
+            continue
+        for mode in ("real", "mem"):
+            fs0 = dict(ps.input_fs())
+            for pth, data in ref.items():
+                fs0[pth] = data + L.gen_content(rng, "random", 37)          # stale, longer content at every output path
+            fs0[P.DIR + "/" + ps.base + ".vol90+09.par2"] = b"stale volume of an older, larger set"
+            olines.append(L.line_create("p2", mode, ps.index, ps.slice, ps.nparity, 2, [ps.paths[n] for n in ps.files], fs0))
+            ometa.append((ps, mode, fs0, ref))
+    oi = ctx.run_lines(vh, olines)
+    for (ps, mode, fs0, ref), line, i in zip(ometa, olines, oi):
+        pi = L.parse_result(i)
+        ctx.count("over|%s|%s" % (id(ps), mode), True)
+        dist["over_existing_outputs"] = dist.get("over_existing_outputs", 0) + 1
+        after = L.apply_changed(fs0, pi["changed"])
+        bad = [pth for pth, data in ref.items() if after.get(pth) != data]
+        replay = {"lines": [line], "variation": ["over-existing", mode], "impl": i[:1200], "class": {"kind": "over-existing"}}
+        if pi["res"] != "ok":
+            report("Create over existing output files failed (%s): %s" % (mode, i[:80]), replay)
+        elif bad:
+            report("Create over existing (longer) output files leaves different bytes than in a fresh directory: %s (%s)" % (bad, mode), replay)
     # ---------------- CLI level (real directories): current directory x spelling ----------------
     inputs = {SETDIR + "/n1.dat": L.gen_content(rng, "random", 11), SETDIR + "/sub/n2.dat": L.gen_content(rng, "random", 6), SETDIR + "/n3": L.gen_content(rng, "lowent", 13)}
     fpaths = list(inputs)
